@@ -310,7 +310,7 @@ func main() {
 		"protocol calls are issued the way epochStart/metachain/systemSCs.go issues them (stakeNodesFromQueue only for free places)",
 		"registered keys are all storage keys of the staking contract with length >= 32 that are not waiting-list elements")
 	r.MinShapes(60)
-	nCases := r.N(300, 4000)
+	nCases := r.N(300, 3000)
 	r.Parallel(nCases, func(c *vk.Case) { runHistory(r, c) })
 	restore()
 	r.Finish()
